@@ -49,7 +49,7 @@ structure Acc where
 def driverLine (inp obs : List String) : Bool × Bool × String × String :=
   match splitSemi inp with
   | [proto, gr, _acc, mf] :: opToks =>
-    let cfg : Cfg := { auto := proto == "auto", graceful := gr == "1", makefail := if mf == "-" then none else some (natTok mf) }
+    let cfg : Cfg := { auto := proto == "auto", graceful := gr != "0", makefail := if mf == "-" then none else some (natTok mf), hold := gr == "2" }
     let ops := opToks.filterMap parseOp
     let iobs := (splitSemi obs).filterMap parseObs
     if ops.length != opToks.length || iobs.length != ops.length then
